@@ -10,9 +10,9 @@ import (
 // macros shared by the packet-keeper rules (C01–C06)
 var pktM = Macros{
 	"PKT":  "cell<packet/types.(*Packet).ABIDecode(_, $2.Packet)>",
-	"SRC":  "packet/types.(Packet).GetSrcChain({PKT})",
-	"DST":  "packet/types.(Packet).GetDstChain({PKT})",
-	"SEQ":  "packet/types.(Packet).GetSequence({PKT})",
+	"SRC":  "{PKT}.SrcChain",
+	"DST":  "{PKT}.DstChain",
+	"SEQ":  "{PKT}.Sequence",
 	"GETR": "packet/keeper.(Keeper).GetPacketReceipt($0, $1, {SRC}, {DST}, {SEQ})",
 	"HASR": "packet/keeper.(Keeper).HasPacketReceipt($0, $1, {SRC}, {DST}, {SEQ})",
 	"CS":   "iface:packet/types.ClientKeeper.GetClientState($0.clientKeeper, $1, {SRC})",
